@@ -615,3 +615,55 @@ def e_strrepeat(eng):
     f = uf("str_repeat", S, I, S)
     return [Schema("E-strrepeat.len", [c, n], z3.Length(f(c, n)) == z3.If(n < 0, 0, n * z3.Length(c)),
                    triggers=[[f(c, n)]], origin="assumed")]
+
+
+# ---------------------------------------------------------------- nondeterministic sources / sets
+@R.external("random.choice")
+def ext_random_choice(eng, args, kw, node):
+    c = z3.Const(eng.fresh_name("nondet.random"), S)
+    eng.nondet.append(("random.choice", c))
+    eng.st.pc.append(z3.Length(c) == 1)
+    return P(STR, c)
+
+
+SetS = z3.ArraySort(S, B)
+
+
+@R.external("make_set")
+def ext_make_set(eng, args, kw, node):
+    src = args[0]
+    c = lib.cell(eng, src) if not isinstance(src, list) else None
+    if isinstance(src, list) and not src:
+        return lib.alloc(eng, Ty("setcell", STR), P(SetT(STR), z3.K(S, z3.BoolVal(False))), "cell.set")
+    if isinstance(c, Conc) and isinstance(c.v, (set, frozenset)) and len(c.v) > 50:
+        # a large constant set (the built-in reserved words): opaque constant, named by its content
+        import hashlib
+        h = hashlib.sha1(repr(sorted(c.v)).encode()).hexdigest()[:8]
+        return lib.alloc(eng, Ty("setcell", STR), P(SetT(STR), z3.Const("constset_" + h, SetS)), "cell.set")
+    if isinstance(c, P) and c.ty.kind == "set":
+        return lib.alloc(eng, Ty("setcell", STR), P(c.ty, c.term), "cell.set")     # copy
+    sq = lib.seq_of(eng, src)
+    if sq is not None:
+        return lib.alloc(eng, Ty("setcell", STR), P(SetT(STR), _set_of_seq(eng, z3.K(S, z3.BoolVal(False)), sq.term)), "cell.set")
+    raise Unsupported("set() of %r" % (c,))
+
+
+def _set_of_seq(eng, base, seq):
+    """base | set(seq) as a fresh array with its defining axiom"""
+    new = z3.Const(eng.fresh_name("set.union"), SetS)
+    x = z3.Const(eng.fresh_name("set.x"), S)
+    eng.st.schemas.append(Schema("set.union", [x], z3.Select(new, x) == z3.Or(z3.Select(base, x), z3.Contains(seq, z3.Unit(x)))))
+    return new
+
+
+@R.external("cell.update")
+def ext_set_update(eng, args, kw, node):
+    recv, other = args
+    c = eng.st.heap[recv.rid]
+    if not (isinstance(c, P) and c.ty.kind == "set"):
+        raise Unsupported("update on %r" % (c,))
+    sq = lib.seq_of(eng, other)
+    if sq is None:
+        return NoneV()
+    eng.st.heap[recv.rid] = P(c.ty, _set_of_seq(eng, c.term, sq.term))
+    return NoneV()
